@@ -90,7 +90,14 @@ on the pysam view of the header (GATKCommandLine ID + option tokens as data; `st
 records), `VErr` gains `typeError`; 16 theorems in `Props/C18Pairs.lean` (precedence, exact pair per convention, "the first
 declared pair is the pair read"); 18 generator cells crossed with selectors on real header lines; three mutations of the
 branch (pair swapped, NORMAL/TUMOR test inverted, `elif` → `if`) are caught with replays; no defect of /repo. A source tie
-of the key precedence and the general `chooseNamesH = chooseNames` bridge were not built. C03: see below if merged.
+of the key precedence and the general `chooseNamesH = chooseNames` bridge were not built. C03: anchor coverage of `transfer_fields` rose from 35/45 to 45/45 lines (`make_null_segment` 0/3 → 3/3) by a direct-call op
+`transfer` and units-without-survivor cells; 10 theorems in `Props/C03Fallback.lean` (zero total weight ⇒ depth 0; no weight
+column ⇒ weight = count of spanned bins and depth = their mean, equal to the weighted branch at unit weights; null row; no
+bins; `assembleUnit` is `transferFields`). The call-path analysis showed that the null-segment, no-bins, zero-total-weight and
+no-weight-column branches are dead code behind `do_segmentation` — the last because `_do_segmentation` indexes
+`filtered_cn["weight"]` unconditionally and raises KeyError on a weight-less table although `transfer_fields` supports one
+(observation outside C03's quantifier, `proposed_fixes/C03-segment-without-weight-column.diff`, not applied). Mutations of each
+branch are caught with replays; three equivalent rewrites stay silent.
 
 **Trusted base, additions.** The readers in the table above with their stated rules; the one-line primitives in
 `Model/PyPrims.lean`, `NpVec.lean`, `PyStr.lean`, `PyRow.lean`; hand-written control flow re-assembling generated fragments
